@@ -19,7 +19,7 @@ LEVEL = "exploration"
 RULE = (
     "stream = 1..6 items (every 40th stream 100..400 items, 15..70 KB, also fed as one tiny call followed by one huge call) (well-formed frame, 30% with boundary-value check sequences: HCS/FCS 0000, FFFF, ending in 7D, containing 7E, "
     "running FCS register 0000 mid-frame, near-maximum flag/escape-dense frames / corrupted frame [bit flip, truncation incl. right after the HCS, extra octets, "
-    "wrong length field with HCS+FCS recomputed, swapped FCS] / noise [random, flag+escape dense, frame look-alike, abort sequence]) "
+    "wrong length field with HCS+FCS recomputed, swapped / inverted / incremented FCS, HCS and FCS both inverted] / noise [random, flag+escape dense, frame look-alike, abort sequence]) "
     "joined by 0..3 flags, stuffed on the wire when the configuration uses stuffing; each stream is run under one of the 4 reader "
     "configurations and several splittings (none, byte-at-a-time, every single cut if short, random cuts, fixed sizes, cuts near multiples of 2047/2048/8191/8192, cuts right after every n-th flag). "
     "evaluations = (configuration, stream, splitting) executions; distinct non-trivial = distinct (configuration, stream) digests that returned >= 1 frame."
@@ -121,6 +121,33 @@ def check_stream(cfg, stream: bytes, spec, ctx, states: set | None = None) -> bo
     return bool(frames)
 
 
+def header_only_probe(cfg, stream: bytes, spec, ctx) -> None:
+    """The caller keeps frame.header objects but drops the frames: the header accessors must still answer with the frame's octets."""
+    import gc
+
+    chunks = splits.chunks(stream, spec)
+    ref, exc = hdlc_mon.run(cfg, chunks)
+    if exc is not None or any(o.get("poison") for o in ref):
+        return
+    reader = hdlc_mon.new_reader(cfg)
+    headers = []
+    for ch in chunks:
+        headers += [f.header for f in reader.read(ch)]
+    gc.collect()
+    case = {"cfg": list(cfg), "stream": stream, "split": list(spec), "header_only": True}
+    ctx.count("header_only_probes")
+    for h, obs in zip(headers, ref):
+        for name, attr in (("length", "frame_length"), ("dst", "destination_address"), ("src", "source_address"), ("ctrl", "control"), ("hcs", "header_check_sequence")):
+            try:
+                got = getattr(h, attr)
+            except Exception as ex:
+                ctx.violation(f"C01:accessor:header-after-frame-dropped:{type(ex).__name__}", f"header.{attr} raised {ex!r} once the caller no longer held the frame object", case)
+                return
+            if obs["valid"] and got != obs[name]:
+                ctx.violation("C01:accessor:header-after-frame-dropped:value", f"header.{attr} = {got!r} after the frame was dropped, {obs[name]!r} while it was held", case)
+                return
+
+
 def run(shard: dict, ctx) -> None:
     if shard.get("kind") == "suite":
         from vf.mon import suite
@@ -148,6 +175,8 @@ def run(shard: dict, ctx) -> None:
         for spec in specs:
             got_any |= check_stream(cfg, stream, spec, ctx, states)
             ctx.case(None, nontrivial=False)
+        if got_any and i % 5 == 0 and len(stream) < 4000:
+            header_only_probe(cfg, stream, specs[2], ctx)
         if got_any:
             ctx.case(bytes(cfg) + stream, nontrivial=True, n=0)
         if i < 2:
@@ -157,6 +186,9 @@ def run(shard: dict, ctx) -> None:
 
 
 def replay(case: dict, ctx) -> None:
+    if case.get("header_only"):
+        header_only_probe(tuple(case["cfg"]), case["stream"], tuple(case["split"]), ctx)
+        return
     check_stream(tuple(case["cfg"]), case["stream"], tuple(case["split"]), ctx)
 
 
